@@ -302,6 +302,14 @@ impl FreeSpaceManager {
     }
 
     /// Get total free space in bytes
+    #[cfg(feoxdb_verif)]
+    pub fn verif_free_runs(&self) -> Vec<(u64, u64)> {
+        self.by_start
+            .values()
+            .map(|space| (space.start, space.size))
+            .collect()
+    }
+
     pub fn get_total_free(&self) -> u64 {
         self.total_free
     }
